@@ -6,9 +6,6 @@ import regen as regen_mod
 from common import Driver, f2b, b2f, close
 
 
-def regen(ctx):
-    regen_mod.regen(ctx)
-
 
 def metric_line(drv, name, x, y, extra):
     toks = ["metric", mg.canon(name), len(x)] + [f2b(v) for v in x] + [f2b(v) for v in y] + [f2b(v) for v in extra]
